@@ -20,7 +20,7 @@ SWITCHES = list(itertools.product((False, True), repeat=3))  # inbound, internal
 
 class Check(HCheck):
     pid = ID
-    owned = ("links", "crawl")
+    owned = ("links", "crawl", "clear", "reopen")
     must_count = ("page_links_nonempty", "self_link_seen", "weight_gt1_seen", "in_and_out_on_one_page")
 
     def spaces(self, tier):
@@ -56,6 +56,9 @@ class Check(HCheck):
         sp.append(Space(Cfg("never"), al.all_crawl_batches([A, Ax, Axy, Ab]), 1, roots=prep + [(al.page(Axy), al.page(Ax, True), al.page(Ab, True))], name="shapes/crawl"))
         if thorough:
             sp.append(Space(Cfg("never"), al.all_link_batches(P3, 2), 2, roots=[al.R0], name="shapes/links-x2"))
+        # two different corpora, queries in between, clear and reopen: every sequence (no merging)
+        life = [al.links((Ax, Ab), (Ab, Ax), (Ax, Ax)), al.crawl((Bb, (Az, Axy)), (Az, (Bb,))), al.links((Az, Az), (Axy, Bb)), al.OBS, al.clear("never", {}), al.REOPEN]
+        sp.append(Space(Cfg("never"), life, 5 if thorough else 4, name="lifecycle/never", dedup=False))
         return sp
 
     def check_trans(self, w, tr, ctx):
